@@ -303,7 +303,7 @@ DIMS = {
     'menu': ['full', 'empty', 'inonly', 'outonly'],
     'evorder': ['grouped', 'interleaved', 'outsfirst', 'reversed'],
     'names': ['plain', 'caps', 'under', 'evlike', 'pykw', 'long', 'dunder'],
-    'evnames': ['plain', 'acqfree', 'swapped', 'pykw'],
+    'evnames': ['plain', 'acqfree', 'swapped', 'pykw', 'casepair'],
     'psem': ['MTS', 'STS'],
     'rsem': ['allmts', 'allsts', 'firstmts', 'firststs', 'lastmts', 'laststs'],
     'fac': ['create', 'import'],
@@ -339,7 +339,9 @@ PORT_NAMES = {'plain': (['p', 'p2', 'p3'], ['r', 'r2', 'r3'], ['inj', 'inj2', 'i
                         'injectedConfigurationServicePortNumberThree'])}
 
 CLAIM_NAMES = {'plain': ('Claim', 'Release'), 'acqfree': ('Acquire', 'Free'), 'swapped': ('Release', 'Claim'),
-               'pykw': ('yield', 'pass')}
+               'pykw': ('yield', 'pass'),
+               # look-alikes: in-events `claim` / `release` with the same signatures are declared BEFORE `Claim` / `Release`
+               'casepair': ('Claim', 'Release')}
 
 
 def full_menu():
@@ -407,10 +409,13 @@ def mc_events(evnames, mcsig='io', mcmenu='full'):
     claim, release = CLAIM_NAMES[evnames]
     cf = {'io': [['a', ['T1'], 'in'], ['b', ['T2'], 'out']], 'none': [], 'inout': [['a', ['T1'], 'inout']]}[mcsig]
     rf = {'io': [['b', ['T2'], 'out']], 'none': [], 'inout': [['b', ['T2'], 'in']]}[mcsig]
+    import copy as _copy  # pylint: disable=import-outside-toplevel
+    alike = [[claim.lower(), 'in', ['Res'], _copy.deepcopy(cf)], [release.lower(), 'in', ['void'], _copy.deepcopy(rf)]] \
+        if evnames == 'casepair' else []
     if mcmenu == 'bare':
         # nothing but the claim and release events and one out-event
-        return [[claim, 'in', ['Res'], cf], [release, 'in', ['void'], rf], ['Evt', 'out', ['void'], [['a', ['T1'], 'in']]]]
-    return [[claim, 'in', ['Res'], cf],
+        return alike + [[claim, 'in', ['Res'], cf], [release, 'in', ['void'], rf], ['Evt', 'out', ['void'], [['a', ['T1'], 'in']]]]
+    return alike + [[claim, 'in', ['Res'], cf],
             [release, 'in', ['void'], rf],
             ['Other', 'in', ['void'], [['a', ['T1'], 'in']]],
             ['Other2', 'in', ['bool'], []],
